@@ -289,8 +289,15 @@ def gen_queries(rng, r, n):
     nb = (size + bs - 1) // bs
     qs = []
     big_used = False
+    partial = [b for b, st in enumerate(top["blocks"]) if st == 7]
     for _ in range(n):
         kind = rng.choice(["edge", "edge", "mid", "tail", "rand", "small", "big"])
+        if partial and rng.random() < 0.4:
+            # the start of a partially-present block: that is where its sector runs change
+            b = rng.choice(partial)
+            off = max(0, b * bs + rng.choice([0, 0, -ss, ss * rng.randrange(0, 130), -1]))
+            qs.append(["o", off, rng.choice([ss, 4096, 70000, rng.randrange(1, 100000)])])
+            continue
         if kind == "edge":
             b = rng.randrange(nb + 1) * bs
             off = max(0, b + rng.choice([-1, 0, 1, -ss, ss, -rng.randrange(1, 70000)]))
